@@ -74,7 +74,11 @@ def render(name, s, e, nlook, prefix=None):
     _, e2 = D.in_domain(name, 'se', s, e, 1)
     # keep the START words exactly as enumerated; only END enum positions are forced in-domain
     pre = prefix_events(name, s, prefix)
-    evs = pre + [E.ev(name, 1, s)] + lookups(nlook) + [E.ev(name, 2, e2)]
+    between = []
+    if prefix == 'long-window':
+        # 700 stand-alone records of the same thread (with words that are nobody's argument) between START and END
+        between = [E.ev('MACH_vm_page_release' if i % 2 else 'MACH_WAIT', 0, OTHER) for i in range(700)]
+    evs = pre + [E.ev(name, 1, s)] + between + lookups(nlook) + [E.ev(name, 2, e2)]
     out = [t for t in p.feed_generator(E.restamp(evs))]
     mine = [t for t in out if t.ktraces[0].eventid == evs[len(pre)].eventid and t.ktraces[-1].timestamp == len(evs) - 1]
     if len(mine) != 1:
@@ -120,7 +124,7 @@ class C09(Check):
             '(success, failure, other values) with 0 lookups, every point with <=2 non-default words with 2 nested lookups, and every '
             'point with <=1 non-default word preceded by {an earlier START of the same call whose END was lost, a stray END, the same '
             'call still open on another thread, another call still open on the same thread} carrying words that never equal an '
-            'enumerated one. '
+            'enumerated one; and one window per decoder with 700 stand-alone same-thread records between START and END. '
             'Oracle: every integer-literal token at position k is one of the renderings {u64, i64, u32, i32 decimal; u64, u32 hex} of '
             'START word k in every run; no numeric token beyond position 3; call part identical across END tuples. Distinct by '
             'construction; non-trivial = the rendering is call-style and shows at least one numeric token.')
@@ -157,7 +161,7 @@ class C09(Check):
             for s in deviation_bounded(doms, 1):
                 if name in ('BSC_getsockopt', 'BSC_setsockopt') and s[1] in (1, 0xffff):
                     continue
-                for prefix in ('stale-start', 'stray-end', 'other-thread-open', 'other-call-open'):
+                for prefix in ('stale-start', 'stray-end', 'other-thread-open', 'other-call-open') + (('long-window',) if s == tuple(d[0] for d in doms) else ()):
                     bad, call = judge(name, s, 0, prefix)
                     self._acc(acc, name, s, 0, (bad[0] + ':after-' + prefix, bad[1]) if bad else None, call, prefix)
 
